@@ -52,6 +52,8 @@ enum Op {
     OobGet(u8),
     OobSet(u8, bool),
     OobSwap(u8, bool),
+    /// Writes garbage, through the safe `AsMut<[usize]>`, into the backend bits beyond `len`.
+    Scribble(u64),
 }
 
 enum Sut {
@@ -101,7 +103,7 @@ fn decode(u: &mut Unstructured, cap: usize) -> (Init, Vec<Op>) {
         }
         let b: bool = u.arbitrary().unwrap_or(false);
         let sel = u.arbitrary::<u16>().unwrap_or(0) as usize;
-        let op = match u.int_in_range(0u8..=39).unwrap_or(0) {
+        let op = match u.int_in_range(0u8..=40).unwrap_or(0) {
             0..=4 => Op::Push(b),
             5 | 6 => Op::Pop,
             7..=10 => Op::Set(sel, b),
@@ -132,6 +134,7 @@ fn decode(u: &mut Unstructured, cap: usize) -> (Init, Vec<Op>) {
             36 => Op::ToAtomicBoxed,
             37 => Op::Swap(sel, b),
             38 => Op::OobGet(sel as u8),
+            40 => Op::Scribble(u.arbitrary::<u64>().unwrap_or(!0) | 1),
             _ => {
                 if b {
                     Op::OobSet(sel as u8, sel & 256 != 0)
@@ -488,6 +491,31 @@ impl Property for C06 {
                         };
                         cx.check_eq(got, model[i], "get", || format!("get({i})"))?;
                     }
+                }
+                Op::Scribble(pat) => {
+                    fn scribble(w: &mut [usize], len: usize, pat: u64) -> bool {
+                        let mut x = pat;
+                        let mut dirtied = false;
+                        for (i, w) in w.iter_mut().enumerate() {
+                            let lo = i * 64;
+                            if lo + 64 <= len {
+                                continue;
+                            }
+                            x ^= x << 13;
+                            x ^= x >> 7;
+                            x ^= x << 17;
+                            let keep: usize = if len > lo { (1usize << (len - lo)) - 1 } else { 0 };
+                            *w = (*w & keep) | (x as usize & !keep);
+                            dirtied = true;
+                        }
+                        dirtied
+                    }
+                    let d = match &mut sut {
+                        Sut::V(v) => cx.must("as_mut", || scribble(v.as_mut(), len, *pat))?,
+                        Sut::B(v) => cx.must("as_mut", || scribble(v.as_mut(), len, *pat))?,
+                        _ => false,
+                    };
+                    cx.label_if(d, "scribbled_beyond_len");
                 }
                 Op::Fill(b, par) => {
                     bulk = true;
